@@ -24,13 +24,20 @@ CONSTANTS
   Sim,        \* TRUE: parameters are picked with RandomElement (use with -simulate)
   SMax,       \* largest |step| of generated slices
   IdxPad,     \* how far slice bounds go beyond the axis length
-  EmitAll     \* TRUE: emit every program prefix; FALSE: only complete programs
+  EmitAll,    \* TRUE: emit every program prefix; FALSE: only complete programs
+  ExclPairs,  \* set of strings "producer>consumer" (or "producer>*"): a collection produced by the first is never
+              \* an operand of the second (compositions excluded from a corpus, each tied to a known finding)
+  Lean        \* TRUE: every parameter domain is reduced to boundary / interior representatives
+              \* (used for exhaustive enumeration of programs of depth >= 2)
 
 VARIABLES env, prog
 vars == <<env, prog>>
 
 Pick(S) == IF Sim THEN {RandomElement(S)} ELSE S
 Coin(n) == IF Sim THEN RandomElement(1..n) = 1 ELSE FALSE    \* TRUE with probability 1/n (sim only)
+
+\* L(full, lean): the parameter domain to enumerate
+L(full, lean) == IF Lean THEN lean ELSE full
 
 \* a random chunking: every interior boundary is a cut with probability 1/2
 RandChunking(n) ==
@@ -39,7 +46,11 @@ RandChunking(n) ==
            bs == SetToSortSeq(cuts \cup {0, n}, LAMBDA x, y : x < y)
        IN [j \in 1..(Len(bs) - 1) |-> bs[j + 1] - bs[j]]
 RandGrid(shape) == [a \in 1..Len(shape) |-> RandChunking(shape[a])]
-PickGrid(shape) == IF Sim THEN {RandGrid(shape)} ELSE GridsOf(shape)
+\* lean: per axis the whole axis, unit blocks, a short first block and a short last block
+LeanChunkings(n) == IF n <= 1 THEN Chunkings(n) ELSE {<<n>>, [j \in 1..n |-> 1], <<1, n - 1>>, <<n - 1, 1>>}
+LeanGrids(shape) == {g \in [1..Len(shape) -> UNION {LeanChunkings(shape[a]) : a \in 1..Len(shape)}] :
+                       \A a \in 1..Len(shape) : g[a] \in LeanChunkings(shape[a])}
+PickGrid(shape) == IF Sim THEN {RandGrid(shape)} ELSE IF Lean THEN LeanGrids(shape) ELSE GridsOf(shape)
 
 Err == [shape |-> <<>>, data |-> <<>>, kind |-> "err"]
 IsErr(A) == A.kind = "err"
@@ -58,7 +69,11 @@ SrcShapes ==
                                <<2, 2, 3>>, <<2, 3, 4>>}
     [] SrcPreset = "small" -> {<<4>>, <<6>>, <<2, 3>>, <<3, 4>>, <<2, 2, 3>>}
     [] SrcPreset = "win"   -> {<<n>> : n \in 1..8} \cup {<<3, 5>>, <<4, 3>>}
-SrcKinds == CASE SrcPreset \in {"1d", "1d7"} -> {"i"} [] OTHER -> {"i", "f", "b"}
+    [] SrcPreset = "lean1" -> {<<5>>}
+    [] SrcPreset = "lean2" -> {<<3, 4>>}
+    [] SrcPreset = "lean3" -> {<<2, 3, 2>>}
+    [] SrcPreset = "lean"  -> {<<5>>, <<3, 4>>, <<2, 3, 2>>}
+SrcKinds == CASE SrcPreset \in {"1d", "1d7", "lean", "lean1", "lean2", "lean3"} -> {"i"} [] OTHER -> {"i", "f", "b"}
 
 \* source data: distinct small integers (index-mapping errors change values);
 \* "f": halves (exact in binary floating point); "b": a fixed irregular pattern
@@ -94,7 +109,12 @@ Start ==
 NActs == Cardinality({j \in 1..Len(prog) : prog[j].a # "Source"})
 CanStep == env # <<>> /\ NActs < MaxLen
 
+Operands(act) ==
+  (IF "x" \in DOMAIN act THEN {act.x} ELSE {}) \cup (IF "y" \in DOMAIN act THEN {act.y} ELSE {})
+  \cup (IF "c" \in DOMAIN act THEN {act.c} ELSE {}) \cup (IF "xs" \in DOMAIN act THEN {act.xs[j] : j \in 1..Len(act.xs)} ELSE {})
+PairOK(act) == \A h \in Operands(act) \ {0} : (prog[h].a \o ">" \o act.a) \notin ExclPairs /\ (prog[h].a \o ">*") \notin ExclPairs
 Push(act, val) ==
+  /\ PairOK(act)
   /\ env' = Append(env, val)
   /\ prog' = Append(prog, act @@ [out |-> Len(env) + 1])
 
@@ -106,12 +126,18 @@ AxisIxDom(n) ==
   \cup {IntIx(i) : i \in (-n - 1)..n}
 NoneIx == [k |-> "none"]
 \* simulation: build a random element directly instead of enumerating the domain
+LeanAxisIx(n, r) ==
+  IF r = 1 THEN {SliceIx(None, None, None), SliceIx(1, None, None), SliceIx(None, -1, None), SliceIx(None, None, 2),
+                 SliceIx(None, None, -1), SliceIx(1, n - 1, None), SliceIx(-2, None, -2), IntIx(0), IntIx(-1), IntIx(n)}
+  ELSE IF r = 2 THEN {SliceIx(None, None, None), SliceIx(1, None, None), SliceIx(None, None, -1), SliceIx(None, -1, 2), IntIx(-1)}
+  ELSE {SliceIx(None, None, None), SliceIx(1, None, None), IntIx(0)}
 PickAxisIx(n) ==
   IF Sim
   THEN {IF Coin(5) THEN IntIx(RandomElement((-n - 1)..n))
         ELSE SliceIx(RandomElement(OptInts(-n - IdxPad, n + IdxPad)), RandomElement(OptInts(-n - IdxPad, n + IdxPad)),
                      RandomElement(Steps(SMax)))}
   ELSE AxisIxDom(n)
+PickAxisIxR(n, r) == IF Lean /\ ~Sim THEN LeanAxisIx(n, r) ELSE PickAxisIx(n)
 
 
 \* index tuples for a shape: one element per axis (all combinations when exhaustive),
@@ -119,14 +145,16 @@ PickAxisIx(n) ==
 IdxTuples(shape) ==
   LET r == Len(shape)
       base == CASE r = 0 -> {<<>>}
-                [] r = 1 -> {<<e>> : e \in PickAxisIx(shape[1])}
-                [] r = 2 -> {<<e, f>> : e \in PickAxisIx(shape[1]), f \in PickAxisIx(shape[2])}
-                [] r = 3 -> {<<e, f, g>> : e \in PickAxisIx(shape[1]), f \in PickAxisIx(shape[2]),
-                                           g \in PickAxisIx(shape[3])}
-                [] r = 4 -> {<<e, f, g, h>> : e \in PickAxisIx(shape[1]), f \in PickAxisIx(shape[2]),
-                                              g \in PickAxisIx(shape[3]), h \in PickAxisIx(shape[4])}
+                [] r = 1 -> {<<e>> : e \in PickAxisIxR(shape[1], r)}
+                [] r = 2 -> {<<e, f>> : e \in PickAxisIxR(shape[1], r), f \in PickAxisIxR(shape[2], r)}
+                [] r = 3 -> {<<e, f, g>> : e \in PickAxisIxR(shape[1], r), f \in PickAxisIxR(shape[2], r),
+                                           g \in PickAxisIxR(shape[3], r)}
+                [] r = 4 -> {<<e, f, g, h>> : e \in PickAxisIxR(shape[1], r), f \in PickAxisIxR(shape[2], r),
+                                              g \in PickAxisIxR(shape[3], r), h \in PickAxisIxR(shape[4], r)}
   IN IF Sim THEN {IF Coin(4) THEN InsertAt(t, RandomElement(1..(Len(t) + 1)), NoneIx) ELSE t : t \in base}
-     ELSE base \cup (IF r = 1 THEN {InsertAt(t, p, NoneIx) : t \in base, p \in 1..2} ELSE {})
+     ELSE base \cup (IF r = 1 /\ ~Lean THEN {InsertAt(t, p, NoneIx) : t \in base, p \in 1..2} ELSE {})
+               \cup (IF Lean /\ r \in {1, 2} THEN {InsertAt([a \in 1..r |-> SliceIx(None, None, None)], p, NoneIx) : p \in 1..(r + 1)}
+                     ELSE {})
 
 Perms(r) == {p \in [1..r -> 1..r] : {p[a] : a \in 1..r} = 1..r}
 AxisSubsets(r) == (SUBSET (1..r)) \ {{}}
@@ -152,27 +180,27 @@ OpOK(op, k1, k2) ==
   ELSE TRUE
 Elemwise ==
   /\ "Elemwise" \in Acts /\ CanStep
-  /\ \E x \in Pick(Live) : \E op \in Pick(BinOps) :
+  /\ \E x \in Pick(Live) : \E op \in Pick(L(BinOps, {"add", "mul", "lt", "maximum"})) :
        \/ \E y \in Pick({h \in Live : BroadcastCompatible(env[x].shape, env[h].shape)
                                         /\ SmallEnough(BroadcastShapes(env[x].shape, env[h].shape))}) :
             /\ OpOK(op, env[x].kind, env[y].kind)
             /\ Push([a |-> "Elemwise", op |-> op, x |-> x, y |-> y, scalar |-> 0, skind |-> "none", swap |-> FALSE],
                     Binary(op, env[x], env[y]))
-       \/ \E sk \in Pick(NumKinds) : \E sv \in Pick(ScalarDom(sk)) : \E sw \in Pick({TRUE, FALSE}) :
+       \/ \E sk \in Pick(L(NumKinds, {"i"})) : \E sv \in Pick(L(ScalarDom(sk), {2})) : \E sw \in Pick(L({TRUE, FALSE}, {op = "lt"})) :
             /\ OpOK(op, env[x].kind, sk)
             /\ Push([a |-> "Elemwise", op |-> op, x |-> x, y |-> 0, scalar |-> sv, skind |-> sk, swap |-> sw],
                     IF sw THEN Binary(op, Scalar(sv, sk), env[x]) ELSE Binary(op, env[x], Scalar(sv, sk)))
 
 UnaryAct ==
   /\ "Unary" \in Acts /\ CanStep
-  /\ \E x \in Pick(Live) : \E op \in Pick(UnOps) :
+  /\ \E x \in Pick(Live) : \E op \in Pick(L(UnOps, {"negative", "abs"})) :
        /\ (op # "logical_not" => env[x].kind # "b" \/ TRUE)
        /\ (op \in {"negative", "square"} => env[x].kind # "b")
        /\ Push([a |-> "Unary", op |-> op, x |-> x], Unary(op, env[x]))
 
 AsTypeAct ==
   /\ "AsType" \in Acts /\ CanStep
-  /\ \E x \in Pick(Live) : \E k \in Pick(Kinds) :
+  /\ \E x \in Pick(Live) : \E k \in Pick(L(Kinds, {"f", "b"})) :
        \* float -> int truncation is not modelled
        /\ ~(env[x].kind = "f" /\ k = "i")
        /\ Push([a |-> "AsType", x |-> x, kind |-> k], AsType(env[x], k))
@@ -201,7 +229,7 @@ FlipRoll ==
   /\ "FlipRoll" \in Acts /\ CanStep
   /\ \E x \in Pick({h \in Live : Rank(env[h]) >= 1}) : \E ax \in Pick(1..Rank(env[x])) :
        \/ Push([a |-> "Flip", x |-> x, axis |-> ax], Flip(env[x], ax))
-       \/ \E sh \in Pick((-env[x].shape[ax] - 1)..(env[x].shape[ax] + 1)) :
+       \/ \E sh \in Pick(L((-env[x].shape[ax] - 1)..(env[x].shape[ax] + 1), {1, -2})) :
             Push([a |-> "Roll", x |-> x, axis |-> ax, shift |-> sh],
                  IF env[x].shape[ax] = 0 THEN env[x] ELSE Roll(env[x], sh, ax))
 
@@ -212,7 +240,7 @@ ConcatStack ==
        \/ \E y \in Pick({h \in Live : ConcatOK(env[x].shape, env[h].shape, ax)}) :
             \/ /\ SmallEnough([b \in 1..Rank(env[x]) |-> IF b = ax THEN env[x].shape[b] + env[y].shape[b] ELSE env[x].shape[b]])
                /\ Push([a |-> "Concat", xs |-> <<x, y>>, axis |-> ax], Concat(<<env[x], env[y]>>, ax))
-            \/ \E z \in Pick({h \in Live : ConcatOK(env[x].shape, env[h].shape, ax)}) :
+            \/ \E z \in Pick({h \in Live : ~Lean /\ ConcatOK(env[x].shape, env[h].shape, ax)}) :
                  /\ SmallEnough([b \in 1..Rank(env[x]) |-> IF b = ax THEN env[x].shape[b] + env[y].shape[b] + env[z].shape[b]
                                                           ELSE env[x].shape[b]])
                  /\ Push([a |-> "Concat", xs |-> <<x, y, z>>, axis |-> ax], Concat(<<env[x], env[y], env[z]>>, ax))
@@ -233,8 +261,9 @@ RedOpOK(op, A) ==
   /\ (op = "ptp" => A.kind # "b")
 ReduceAct ==
   /\ "Reduce" \in Acts /\ CanStep
-  /\ \E x \in Pick({h \in Live : Rank(env[h]) >= 1}) : \E op \in Pick(RedOps \ {"argmin", "argmax"}) :
-       \E axes \in Pick(AxisSubsets(Rank(env[x]))) : \E kd \in Pick({TRUE, FALSE}) : \E se \in Pick({0, 2, 3}) :
+  /\ \E x \in Pick({h \in Live : Rank(env[h]) >= 1}) : \E op \in Pick(L(RedOps \ {"argmin", "argmax"}, {"sum", "max", "mean", "any"})) :
+       \E axes \in Pick(AxisSubsets(Rank(env[x]))) : \E kd \in Pick(L({TRUE, FALSE}, {op = "sum" /\ Cardinality(axes) = 1})) :
+         \E se \in Pick(L({0, 2, 3}, {IF op \in {"sum", "mean"} THEN 2 ELSE 0})) :
          /\ RedOpOK(op, env[x])
          /\ (op \in {"count_nonzero", "ptp"} => ~kd /\ se = 0)       \* the public functions take neither keyword
          /\ Push([a |-> "Reduce", op |-> op, x |-> x, axes |-> SetToSeqAsc(axes), keepdims |-> kd, split_every |-> se,
@@ -243,8 +272,8 @@ ReduceAct ==
 
 ArgReduce ==
   /\ "ArgReduce" \in Acts /\ CanStep
-  /\ \E x \in Pick({h \in Live : Rank(env[h]) >= 1}) : \E op \in Pick({"argmin", "argmax"}) : \E se \in Pick({0, 2, 3}) :
-       \/ \E ax \in Pick(1..Rank(env[x])) : \E kd \in Pick({TRUE, FALSE}) :
+  /\ \E x \in Pick({h \in Live : Rank(env[h]) >= 1}) : \E op \in Pick(L({"argmin", "argmax"}, {"argmax"})) : \E se \in Pick(L({0, 2, 3}, {2})) :
+       \/ \E ax \in Pick(1..Rank(env[x])) : \E kd \in Pick(L({TRUE, FALSE}, {FALSE})) :
             Push([a |-> "Reduce", op |-> op, x |-> x, axes |-> <<ax>>, keepdims |-> kd, split_every |-> se,
                   ok |-> ReduceOK(op, env[x], {ax})],
                  IF ReduceOK(op, env[x], {ax}) THEN Reduce(op, env[x], {ax}, kd) ELSE Err)
@@ -254,7 +283,7 @@ ArgReduce ==
 CumulativeAct ==
   /\ "Cumulative" \in Acts /\ CanStep
   /\ \E x \in Pick({h \in Live : Rank(env[h]) >= 1}) : \E ax \in Pick(1..Rank(env[x])) :
-       \E op \in Pick({"cumsum", "cumprod"}) : \E m \in Pick({"sequential", "blelloch"}) :
+       \E op \in Pick(L({"cumsum", "cumprod"}, {"cumsum"})) : \E m \in Pick({"sequential", "blelloch"}) :
          /\ (op = "cumprod" => RedOpOK("prod", env[x]))
          /\ Push([a |-> "Cumulative", op |-> op, x |-> x, axis |-> ax, method |-> m], Cumulative(op, env[x], ax))
 
@@ -277,13 +306,14 @@ TakeLists(n) == IF n = 0 THEN {<<>>} ELSE {<<p>> : p \in (-n)..(n - 1)} \cup {<<
 TakeAct ==
   /\ "Take" \in Acts /\ CanStep
   /\ \E x \in Pick({h \in Live : Rank(env[h]) >= 1}) : \E ax \in Pick(1..Rank(env[x])) :
-       \E lst \in Pick(TakeLists(env[x].shape[ax])) :
+       \E lst \in Pick(L(TakeLists(env[x].shape[ax]),
+                          IF env[x].shape[ax] = 0 THEN {<<>>} ELSE {<<env[x].shape[ax] - 1, 0>>, <<0, -1, 0>>})) :
          Push([a |-> "Take", x |-> x, axis |-> ax, list |-> lst],
               Take(env[x], [j \in 1..Len(lst) |-> PosInt(lst[j], env[x].shape[ax])], ax))
 
 BroadcastAct ==
   /\ "BroadcastTo" \in Acts /\ CanStep
-  /\ \E x \in Pick({h \in Live : Rank(env[h]) <= 2}) : \E lead \in Pick({<<>>, <<1>>, <<2>>, <<3>>}) :
+  /\ \E x \in Pick({h \in Live : Rank(env[h]) <= 2}) : \E lead \in Pick(L({<<>>, <<1>>, <<2>>, <<3>>}, {<<>>, <<2>>})) :
        \* every size-1 axis may be stretched (bound once: RandomElement must not be re-evaluated)
        \E stretch \in Pick([1..Rank(env[x]) -> {1, 3}]) :
          LET target == lead \o [b \in 1..Rank(env[x]) |-> IF env[x].shape[b] = 1 THEN stretch[b] ELSE env[x].shape[b]]
@@ -293,8 +323,8 @@ BroadcastAct ==
 WindowAct ==
   /\ "Window" \in Acts /\ CanStep
   /\ \E x \in Pick({h \in Live : Rank(env[h]) >= 1 /\ Rank(env[h]) <= 2}) : \E ax \in Pick(1..Rank(env[x])) :
-       \E w \in Pick(1..Max2(env[x].shape[ax], 1)) :
-         /\ w <= env[x].shape[ax]
+       \E w \in Pick(L(1..Max2(env[x].shape[ax], 1), {2, env[x].shape[ax]})) :
+         /\ w <= env[x].shape[ax] /\ w >= 1
          /\ SmallEnough([b \in 1..(Rank(env[x]) + 1) |-> IF b = Rank(env[x]) + 1 THEN w
                                                         ELSE IF b = ax THEN env[x].shape[b] - w + 1 ELSE env[x].shape[b]])
          /\ Push([a |-> "SlidingWindow", x |-> x, axis |-> ax, window |-> w], SlidingWindow(env[x], w, ax))
@@ -303,7 +333,8 @@ WindowAct ==
 WindowReduce ==
   /\ "WindowReduce" \in Acts /\ CanStep
   /\ \E x \in Pick({h \in Live : Rank(env[h]) >= 1 /\ Rank(env[h]) <= 2}) : \E ax \in Pick(1..Rank(env[x])) :
-       \E w \in Pick(1..Max2(env[x].shape[ax], 1)) : \E op \in Pick({"sum", "min", "max", "mean", "prod", "any", "all", "var"}) :
+       \E w \in Pick(L(1..Max2(env[x].shape[ax], 1), {2, 3})) :
+         \E op \in Pick(L({"sum", "min", "max", "mean", "prod", "any", "all", "var"}, {"sum", "max"})) :
          /\ w <= env[x].shape[ax]
          /\ RedOpOK(op, env[x])
          /\ Push([a |-> "WindowReduce", x |-> x, axis |-> ax, window |-> w, op |-> op],
@@ -322,13 +353,14 @@ DotAct ==
 PadRepeat ==
   /\ "PadRepeat" \in Acts /\ CanStep
   /\ \E x \in Pick({h \in Live : Rank(env[h]) >= 1 /\ Rank(env[h]) <= 3}) : \E ax \in Pick(1..Rank(env[x])) :
-       \/ \E bf \in Pick(0..2) : \E af \in Pick(0..2) : \E mode \in Pick({"constant", "edge", "reflect", "wrap"}) :
+       \/ \E bf \in Pick(L(0..2, {1})) : \E af \in Pick(L(0..2, {0, 2})) :
+            \E mode \in Pick(L({"constant", "edge", "reflect", "wrap"}, {"constant", "reflect"})) :
             /\ (mode \in {"edge", "wrap"} => env[x].shape[ax] >= 1)
             /\ (mode = "reflect" => env[x].shape[ax] > Max2(bf, af))
             /\ SmallEnough([b \in 1..Rank(env[x]) |-> IF b = ax THEN env[x].shape[b] + bf + af ELSE env[x].shape[b]])
             /\ Push([a |-> "Pad", x |-> x, axis |-> ax, before |-> bf, after |-> af, mode |-> mode],
                     PadAxis(env[x], ax, bf, af, mode))
-       \/ \E reps \in Pick(1..3) : \E kind \in Pick({"Repeat", "Tile"}) :
+       \/ \E reps \in Pick(L(1..3, {2})) : \E kind \in Pick({"Repeat", "Tile"}) :
             /\ SmallEnough([b \in 1..Rank(env[x]) |-> IF b = ax THEN env[x].shape[b] * reps ELSE env[x].shape[b]])
             /\ Push([a |-> kind, x |-> x, axis |-> ax, reps |-> reps],
                     IF kind = "Repeat" THEN Repeat(env[x], reps, ax) ELSE Tile1(env[x], reps, ax))
@@ -336,7 +368,7 @@ PadRepeat ==
 TopKAct ==
   /\ "TopK" \in Acts /\ CanStep
   /\ \E x \in Pick({h \in Live : Rank(env[h]) >= 1 /\ env[h].shape[Rank(env[h])] >= 1 /\ env[h].kind # "b"}) :
-       \E kk \in Pick({-3, -2, -1, 1, 2, 3}) :
+       \E kk \in Pick(L({-3, -2, -1, 1, 2, 3}, {2, -1})) :
          /\ \A j \in 1..Len(env[x].data) : ~VIsNaN(env[x].data[j], env[x].kind)
          /\ Abs(kk) <= env[x].shape[Rank(env[x])]
          /\ Push([a |-> "TopK", x |-> x, k |-> kk], TopK(env[x], kk))
